@@ -5,7 +5,7 @@
 # /repo itself is never touched.
 set -u
 V="$(cd "$(dirname "$0")" && pwd)"
-P="$1"; shift
+P="$(cd "$(dirname "$1")" && pwd)/$(basename "$1")"; shift
 T="$(mktemp -d /tmp/verif-patched-XXXXXX)"
 trap 'rm -rf "$T"' EXIT
 rsync -a --exclude .git --exclude /bin --exclude '*.so' "${VERIF_REPO_SRC:-/repo}/" "$T/repo/"
